@@ -338,6 +338,10 @@ def sessStep (s : S) (f : List String) : S × List String :=
     match pol with
     | some x => done (s.release x) []
     | none => (s, ["bad-op wgo"])
+  | ["cpol", "e"] =>
+    match s.conn with
+    | some c => ({ s with conn := some { c with cerr := true } }, [])
+    | none => (s, [])
   | ["cpol", _] => (s, ["unsupported slow Close of the connection"])
   | ["cgo"] => (s, ["unsupported slow Close of the connection"])
   | ["exhold"] => ({ s with holdEx := true }, [])
